@@ -20,3 +20,7 @@ fixed("C13", "5666341", "gc-flush-first/(*primaryGC).gc/flush-before-handover",
       "D12: primaryGC.gc handed the freelist over before flushing the primary; Put(K,v1) unflushed, Put(K,v2), GC ... relocation => Get(K)=v1")
 fixed("C13", "fa8389a", "freelist-locks/freelist.FreeList.file/R@(*freelist.FreeList).StorageSize/W@(*freelist.FreeList).ToGC",
       "D8b: FreeList.StorageSize read FreeList.file without flushLock")
+fixed("C02", "0fa93ad", "tail-recovery/scanIndexFile/short-size prefix-is-cut-off",
+      "D13: scanIndexFile treated io.EOF from ReadAt as a clean end although 1-3 bytes of a size prefix had been read; the torn bytes stayed, later appends followed them and the next rescan lost flushed keys (repro/d13_torn_size_prefix_test.go.txt)")
+fixed("C03", "0fa93ad", "tail-recovery/scanIndexFile/short-size prefix-is-cut-off",
+      "D13: torn index append of 1-3 bytes not cut off by the recovery scan (os.File.ReadAt reports the short read as io.EOF)")
